@@ -372,8 +372,8 @@ def _ovf_guard(o, ok, what):
 
 def arith(o, op, a, b):
     """i32 `a op b` with the interpreter's failure conditions; o = Oracle"""
-    if op == "+" and isinstance(a, tuple) and isinstance(b, tuple) and a[0] == "str" and b[0] == "str":
-        return ("str", a[1] + b[1])          # concatenation of concrete strings
+    if op == "+" and isinstance(a, tuple) and isinstance(b, tuple) and a[0] == "str" and b[0] in ("str", "big"):
+        return ("str", a[1] + str(b[1]))     # concatenation of concrete strings (a number is appended as it prints)
     if any(isinstance(x, tuple) and x[0] == "big" for x in (a, b)):
         # concrete bigint arithmetic (int yields to bigint); anything symbolic is outside
         va, vb = (x[1] if isinstance(x, tuple) else x for x in (a, b))
